@@ -126,6 +126,7 @@ func c20Request(which string, st c20Start) *signature.SignRequest {
 	switch which {
 	case "B":
 		req.Payload.ContentType = "text/b"
+		req.SigningAgent = "" // request B names no signing agent: the agent of an earlier signing (or of the parsed envelope) must not survive
 		req.SigningTime = pki.Now.Add(-2 * time.Hour)
 		req.Expiry = pki.Now.Add(240 * time.Hour) // request B also carries an expiry; request A has none
 		// request B also carries a deeply nested value and a long list (what the signing object reports is what a parse of the bytes reports)
